@@ -574,7 +574,7 @@ def rule_spline(chk, prog):
 
 
 # ----------------------------------------------------------------------------
-def analyse(chk):
+def _analyse_own(chk):
     tree = chk.tree
     prog = pf.Program(tree, [KN, MT, XE])
     chk.rule("k0-factor", "get_k0_for_mapping and the kernel's own k0 have the same normal form")
@@ -598,6 +598,12 @@ def analyse(chk):
         "units of dk0 (the degree engine is not part of this check)",
         "ordering of arbf_args scales vs itertools.combinations index sets",
     ]
+
+
+def analyse(chk):
+    _analyse_own(chk)
+    chk.guard(lambda c_: core.include_findings(c_, 'C10', files=['ciderpress/lib/mod_cider/model_utils.c'], rules=None,
+                                               why='a data race in the C evaluators breaks agreement with the kernel sum'))
 
 
 def mutants(tree):
